@@ -63,6 +63,10 @@ def tstr(t):
 def lit(v):
     if v["t"] == "null":
         return "null"
+    if v["t"] == "s":
+        return '"' + str(v["v"]) + '"'
+    if v["t"] == "e":
+        return str(v["v"])
     if v["t"] == "b":
         return "true" if v["v"] else "false"
     if v["t"] == "var":
@@ -263,6 +267,32 @@ class DocGen:
 
     def typename(self):
         return {"k": "F", "alias": self.rnd.choice(["", "tn"]), "name": "__typename", "args": [], "dirs": [], "sel": []}
+
+
+def gen_conforming_obj(rnd, tn, depth):
+    """data that conforms to the schema: no raising resolver, no ill-typed value, null only at nullable positions,
+    runtime types that are possible for the abstract type"""
+    def oc(t, d, nullable=True):
+        if t[0] == "NN":
+            return oc(t[1], d, False)
+        if nullable and rnd.random() < 0.15:
+            return {"t": "null"}
+        if t[0] == "L":
+            return {"t": "l", "v": [oc(t[1], d) for _ in range(rnd.randint(0, 3))]}
+        dd = TYPES[t[1]]
+        if dd["kind"] == "SCALAR":
+            if t[1] == "Int":
+                return {"t": "v", "v": {"t": "i", "v": rnd.randint(0, 9)}}
+            if t[1] == "Boolean":
+                return {"t": "v", "v": {"t": "b", "v": rnd.random() < 0.5}}
+            return {"t": "v", "v": {"t": "s", "v": "s%d" % rnd.randint(0, 9)}}
+        rt = t[1] if dd["kind"] == "OBJECT" else rnd.choice(dd["possible"])
+        if d <= 0:
+            # an object must still be complete: build it without composite children where possible
+            return {"t": "o", "type": rt, "f": {f: oc(fd["type"], -1) if named_of(fd["type"]) in ("Int", "String", "Boolean") else
+                                               ({"t": "null"} if fd["type"][0] != "NN" else oc(fd["type"], d - 1)) for f, fd in TYPES[rt]["fields"].items()}} if d > -3 else {"t": "null"}
+        return {"t": "o", "type": rt, "f": {f: oc(fd["type"], d - 1) for f, fd in TYPES[rt]["fields"].items()}}
+    return {"t": "o", "type": tn, "f": {f: oc(fd["type"], depth - 1) for f, fd in TYPES[tn]["fields"].items()}}
 
 
 def gen_case(seed, depth=3, op="query"):
